@@ -61,10 +61,15 @@ class Rec:
         if d in ('', 'dump-panic'):
             self.bad = d or 'no-dump'
             return
+        self.cycle = None
         for w in d.split(' '):
             if w[0] == 'S':
                 k, _, v = w.partition('=')
                 self.serial[int(k[1:])] = v
+                continue
+            if w.startswith('cycle='):
+                # degraded dump of a state in which node <h> is beneath itself (harness find_cycle)
+                self.cycle = int(w[6:])
                 continue
             f = w.split('/')
             n = Node()
@@ -132,6 +137,8 @@ def c12_violations(rec):
         return [('dump', rec.bad)]
     N = rec.nodes
     own = child_owner(rec)
+    if getattr(rec, 'cycle', None) is not None:
+        v.append(('cycle', 'node %d is beneath itself (reported by the harness; degraded dump)' % rec.cycle))
     for n in N.values():
         # unknown nodes reachable through navigation
         for fld in ('p', 'f', 'l', 'pv', 'nx'):
